@@ -220,7 +220,7 @@ def run(run):
             part = items[k:k + 200]
             jobs.append({"texts": [t for _, t in part], "title": title, "_timeout": 120})
             meta.append((title, part))
-    res = lib.run_impl("expand_many", jobs, shards=lib.NCPU, timeout=400)
+    res = lib.run_impl("expand_many", jobs, shards=lib.NCPU, timeout=180)
     for (title, part), r in zip(meta, res):
         if r.get("outcome") != "ok":
             # which call of the batch is it?  every text once more, alone, with a short limit
